@@ -44,6 +44,10 @@ class World:
         self.events = []
         self.fixed = None
 
+    def first_now(self):
+        """The clock reading the operation used; if it read no clock at all, the actual current time."""
+        return self.nows[0] if self.nows else self.now()
+
     def now(self):
         if self.fixed is not None:
             self.now_calls += 1
@@ -263,6 +267,43 @@ def make_summaries(W, N, fns):
         r = yield from I.call_fn(clo, [UNIT, ev.fields[0].v], p)
         return EnumV(1, [Cell(r)])
 
+    UNIT_NS = {"secs": 10 ** 9, "millis": 10 ** 6, "micros": 10 ** 3, "nanos": 1}
+
+    def s_dur_from(I, a, p, c):
+        u = UNIT_NS[c.rsplit("_", 1)[1]]
+        v = a[0]
+        if v.size() < 64:
+            v = z3.ZeroExt(64 - v.size(), v)
+        return v * z3.BitVecVal(u, 64)
+
+    def s_dur_as(I, a, p, c):
+        u = UNIT_NS[c.rsplit("_", 1)[1]]
+        v = a[0].cell.v if isinstance(a[0], Ref) else a[0]
+        r = z3.UDiv(v, z3.BitVecVal(u, 64))
+        return z3.ZeroExt(64, r) if c.endswith(("nanos", "millis", "micros")) else r
+
+    def _val(x):
+        return x.cell.v if isinstance(x, Ref) else x
+
+    def s_inst_add(I, a, p, c):
+        return _val(a[0]) + _val(a[1])
+
+    def s_inst_sub(I, a, p, c):
+        return _val(a[0]) - _val(a[1])
+
+    def s_inst_checked_add(I, a, p, c):
+        x, d = _val(a[0]), _val(a[1])
+        r = x + d
+        return EnumV(1, [Cell(r)]) if p.decide(z3.UGE(r, x)) else EnumV(0)
+
+    def s_dur_add(I, a, p, c):
+        return _val(a[0]) + _val(a[1])
+
+    def s_dur_rel(I, a, p, c):
+        x, y = _val(a[0]), _val(a[1])
+        op = c.rsplit("::", 1)[1]
+        return {"lt": z3.ULT(x, y), "le": z3.ULE(x, y), "gt": z3.UGT(x, y), "ge": z3.UGE(x, y), "eq": x == y, "ne": x != y}[op]
+
     def s_u64_cmp(I, a, p, c):
         x, y = a[0].cell.v, a[1].cell.v
         if p.decide(z3.ULT(x, y)):
@@ -290,7 +331,12 @@ def make_summaries(W, N, fns):
         (r"as IntoIterator>::into_iter", s_into_iter), (r"IntoIter<.*as Iterator>::next", s_next),
         (r"^Waker::wake$", s_wake), (r"<Waker as Clone>::clone", s_clone_waker), (r"^Waker::will_wake$", s_will_wake),
         (r"checked_add", s_checked_add), (r"Option::<u64>::expect", s_expect),
-        (r"saturating_duration_since", s_sat_dur), (r"^Option::<\(&TimerKey.*::map::", s_map),
+        (r"saturating_duration_since", s_sat_dur),
+        (r"^Duration::from_(?:secs|millis|micros|nanos)$", s_dur_from), (r"^Duration::as_(?:secs|millis|micros|nanos)$", s_dur_as),
+        (r"<Instant as Add<Duration>>::add$|<Instant as AddAssign<Duration>>", s_inst_add), (r"<Instant as Sub<Duration>>::sub$", s_inst_sub),
+        (r"<Instant as Sub>::sub$|<Instant as Sub<Instant>>::sub$", s_instant_dur_since),
+        (r"^Instant::checked_add$", s_inst_checked_add),
+        (r"<Duration as Add>::add$", s_dur_add), (r"<Duration as PartialOrd>::(?:lt|le|gt|ge)$|<Duration as PartialEq>::(?:eq|ne)$", s_dur_rel),
         (r"^Context::<'_>::waker$", s_ctx_waker),
         (r"BTreeMap<.*> as Default>::default", s_map_default), (r"BTreeMap::<.*>::new$", s_map_default),
     ]
@@ -307,11 +353,41 @@ SUMMARY_TEXT = [
 ]
 
 
+class RtObj:
+    """TimerRuntime value: the generation counter and the wheel are located by their field types in the MIR
+    (robust to field reordering); any other field a change may add is an unconstrained 64-bit symbol."""
+
+    def __init__(self, i_gen, gen, i_wheel, wheel, tag):
+        self.cells = {i_gen: Cell(gen), i_wheel: Cell(wheel)}
+        self.i_gen, self.i_wheel, self.tag = i_gen, i_wheel, tag
+
+    def field_cell(self, idx):
+        if idx not in self.cells:
+            self.cells[idx] = Cell(BV("%s_field%d" % (self.tag, idx)))
+        return self.cells[idx]
+
+    @property
+    def f(self):
+        return {0: self.cells[self.i_gen], 1: self.cells[self.i_wheel]}
+
+
 class Timers:
     def __init__(self, mir_path, n_slots):
         self.fns, self.consts = load(mir_path)
         self.N = n_slots
         self.encoded = set()
+        import re as _re
+        self.i_gen = self.i_wheel = None
+        for st in self.F("insert").blocks.values():
+            for line in st:
+                for m in _re.finditer(r"\(\(\*_1\)\.(\d+): ((?:[^()]|\([^()]*\))+)\)", line):
+                    ty = m.group(2).strip()
+                    if ty == "u64" and self.i_gen is None:
+                        self.i_gen = int(m.group(1))
+                    if "BTreeMap<" in ty and self.i_wheel is None:
+                        self.i_wheel = int(m.group(1))
+        if self.i_gen is None or self.i_wheel is None:
+            raise Unsupported("cannot locate the generation counter / the wheel in TimerRuntime::insert")
 
     def F(self, name):
         c = [f for k, f in self.fns.items() if SPAN_RT in k and "<impl at" in k and k.endswith("::" + name)
@@ -340,7 +416,7 @@ class Timers:
                 p.assume(z3.Implies(z3.And(s["p"], t["p"]), z3.Not(keq((s["d"], s["g"]), (t["d"], t["g"])))))
         if free_slot:
             p.assume(z3.Not(m.slots[-1]["p"]))
-        rt = Struct({0: Cell(gen), 1: Cell(m)})
+        rt = RtObj(self.i_gen, gen, self.i_wheel, m, tag)
         return I, W, rt, m, gen
 
     def invariant(self, rt):
@@ -381,7 +457,7 @@ class Timers:
         p.assume(z3.ULT(gen, z3.BitVecVal(2 ** 64 - 1, 64)))
         r = I.run_to_end(I.call_fn(self.F("insert"), [Ref(Cell(rt)), d], p))
         self.done(I)
-        now = W.nows[0]
+        now = W.first_now()
         obs = [("insert returns None iff deadline <= now", z3.BoolVal(r.variant == 0) == z3.ULE(d, now))]
         after = rt.f[1].v
         if r.variant == 1:
@@ -431,7 +507,7 @@ class Timers:
         obs = [("min_timeout is Some iff a timer is pending", z3.BoolVal(r.variant == 1) == anyp)]
         if r.variant == 1:
             t = r.fields[0].v
-            now = W.nows[0]
+            now = W.nows[-1] if W.nows else W.now()
             dist = [z3.If(z3.UGT(s["d"], now), s["d"] - now, z3.BitVecVal(0, 64)) for s in m.slots]
             for i, s in enumerate(m.slots):
                 obs.append(("idle sleep not longer than the distance to timer %d" % i, z3.Implies(s["p"], z3.ULE(t, dist[i]))))
